@@ -116,6 +116,13 @@ def wellTyped (t : Tree) : Bool := conforms (.iface "Statement") t && !t.isNilNo
 /-- **The typing judgement.** -/
 def WellTyped (t : Tree) : Prop := wellTyped t = true
 
+/-- the node kinds the comparators of `matching_logic.go` look at: parameter types of the `handle*`/`areEqual*`
+functions (struct, pointer and named types), the cases of their type switches and of `checkSinglePatternMatch` -/
+def tableKinds : List String :=
+  ((comparatorParams.filterMap fun (_, mode, name, _) => if mode == "iface" then none else some name)
+    ++ (typeSwitches.flatMap fun (_, cases) => cases.map (·.1))
+    ++ patternDispatch.map (·.1)).eraseDups
+
 mutual
 /-- node kinds occurring in a tree (with repetitions; the harness counts them) -/
 def kindsOf : Tree → List String
